@@ -127,6 +127,27 @@ SITES = {
     'prince_list': ('lib_princeling/wordlist_generation.py', 'create_prince_wordlist'),
     'random_walk': ('lib_guesser/pcfg_grammar.py', 'PcfgGrammar.random_walk'),
     'honey_guess': ('lib_guesser/pcfg_grammar.py', 'PcfgGrammar._honeyword_recursive_guess'),
+    # trainer OMEN
+    'find_omen_level': ('lib_trainer/omen/evaluate_password.py', 'find_omen_level'),
+    'rec_keyspace': ('lib_trainer/omen/evaluate_password.py', '_rec_calc_keyspace'),
+    'calc_keyspace': ('lib_trainer/omen/evaluate_password.py', 'calc_omen_keyspace'),
+    'al_init': ('lib_trainer/omen/alphabet_lookup.py', 'AlphabetLookup.__init__'),
+    'al_parse': ('lib_trainer/omen/alphabet_lookup.py', 'AlphabetLookup.parse'),
+    'smooth_grammar': ('lib_trainer/omen/smoothing.py', 'smooth_grammar'),
+    'smooth_length': ('lib_trainer/omen/smoothing.py', 'smooth_length'),
+    'calc_level': ('lib_trainer/omen/smoothing.py', '_calc_level'),
+    'omen_save': ('lib_trainer/omen/omen_file_output.py', 'save_omen_rules_to_disk'),
+    'scorer_parse': ('lib_scorer/omen_scorer.py', 'OmenScorer.parse'),
+    'scorer_load': ('lib_scorer/omen_scorer.py', 'OmenScorer._load_omen'),
+    # trainer output
+    'calc_probs': ('lib_trainer/calculate_probabilities.py', 'calculate_probabilities'),
+    'save_counter': ('lib_trainer/save_pcfg_data.py', 'calculate_and_save_counter'),
+    'save_indexed': ('lib_trainer/save_pcfg_data.py', 'save_indexed_counters'),
+    'save_pcfg_data': ('lib_trainer/save_pcfg_data.py', 'save_pcfg_data'),
+    'run_trainer': ('lib_trainer/run_trainer.py', 'run_trainer'),
+    # trainer input
+    'read_password': ('lib_trainer/trainer_file_input.py', 'TrainerFileInput.read_password'),
+    'tfi_init': ('lib_trainer/trainer_file_input.py', 'TrainerFileInput.__init__'),
     # edit_rules
     'edit_length': ('edit_rules.py', 'edit_length'),
     'edit_terminal_set': ('edit_rules.py', 'edit_terminal_set'),
@@ -290,9 +311,29 @@ def keepLen (total min_length max_length : Nat) : Bool :=
 end Pcfg.Generated.EditRules
 '''
 
+TEMPLATES['Reader'] = '''import PcfgVerif.Model.Prob
+/-! GENERATED by harness/translate.py from `TrainerFileInput.read_password` -- do not edit. -/
+namespace Pcfg.Generated.Reader
+
+/-- multiplicity of a line without `--prefixcount` -/
+def defaultCount : Int := {I:read_password:7}
+/-- `clean_password[5:-1]` -/
+def hexDropFront : Nat := {I:read_password:8}
+def hexDropBack : Nat := {I:read_password:9}
+/-- index of the count token and of the first password token -/
+def countTok : Nat := {I:read_password:5}
+def restTok : Nat := {I:read_password:6}
+/-- `for x in range(0, n)` -/
+def yieldFrom : Int := {I:read_password:17}
+def errStep : Int := {I:read_password:1}
+def prefixOn (flag : Bool) : Bool := flag == {B:read_password:4}
+
+end Pcfg.Generated.Reader
+'''
+
 # which template uses which sites (all holes of a site not mentioned in a template are pinned to
 # their recorded reference value: a change there is reported as `unmodelled_hole_change`)
-MODULES = {'PQ': 'PQ.lean', 'Expand': 'Expand.lean', 'EditRules': 'EditRules.lean'}
+MODULES = {'PQ': 'PQ.lean', 'Expand': 'Expand.lean', 'EditRules': 'EditRules.lean', 'Reader': 'Reader.lean'}
 
 LEAN_CMP = {'lt': '.lt', 'le': '.le', 'gt': '.gt', 'ge': '.ge', 'eq': '.eq', 'ne': '.ne'}
 
